@@ -21,6 +21,15 @@ ident = st.from_regex(r'[A-Za-z][A-Za-z0-9_]{0,7}', fullmatch=True).filter(lambd
 keyword = st.one_of(ident, ident, ident, st.sampled_from(['struct', 'enum', 'STRUCT', 'Enum', 'symbols']))
 DOUBLE_BRACE = re.compile(r'\{\s*\{\s*\}\s*\}')
 
+DOUBLE_BRACE_TOKEN = re.compile(r'("[^"]*")|(?<!\S)\{\s*\{\s*\}\s*\}(?!\S)')
+
+
+def double_brace_tokens(line):
+    """number of {{}} groups that stand as a token of their own outside double quotes (= empty strings); the same characters
+    inside a word or a quoted string are data"""
+    return sum(1 for m in DOUBLE_BRACE_TOKEN.finditer(line) if m.group(1) is None)
+
+
 INT_RANGE = {'i2': (-2 ** 15, 2 ** 15 - 1), 'i4': (-2 ** 31, 2 ** 31 - 1), 'i8': (-2 ** 63, 2 ** 63 - 1)}
 
 
@@ -30,14 +39,13 @@ def string_ok(s, in_array=False):
         return False
     if in_array and '}' in s:
         return False
-    if DOUBLE_BRACE.search(s):
-        return False
+    # ({{}} inside a string is data like any other inner brace - D60; in an array element it contains a '}' and is excluded above)
     return True
 
 
 def text(width, in_array=False, alphabet=ALPHA):
     base = st.one_of(
-        st.sampled_from(['', ' ', 'a b', '#', 'a#b', ';', 'a;b', 'x{y}z', '\t', 'a\tb', "it's", '\\', 'a\\b', '-1', '1e5', 'nan', 'p1\x0cp2', 'a\x0bb']),
+        st.sampled_from(['', ' ', 'a b', '#', 'a#b', ';', 'a;b', 'x{y}z', 'a{{}}b', 'x {{}} z', 'q{ { } }', '\t', 'a\tb', "it's", '\\', 'a\\b', '-1', '1e5', 'nan', 'p1\x0cp2', 'a\x0bb']),
         st.text(alphabet=alphabet, max_size=width))
     return base.map(lambda s: s[:width]).filter(lambda s: string_ok(s, in_array))
 
@@ -279,9 +287,9 @@ def pair_text(v):
 
 def header_value():
     txt = st.text(alphabet='abXY09 \t;{}\',.:=-_/+*()[]<>|@!?~^&%$\x0c\x1e', max_size=10).map(lambda s: s.strip()).filter(
-        lambda s: not DOUBLE_BRACE.search(s) and not s.endswith('\\'))
+        lambda s: not s.endswith('\\'))
     return st.one_of(st.integers(-10 ** 9, 10 ** 9), st.floats(allow_nan=False, allow_infinity=False, width=64), txt,
-                     st.sampled_from(['', 'beta gamma delta', '54579', "a 'quoted' word", '{1 2 3}', 'x;y', '1.5e-3']))
+                     st.sampled_from(['', 'beta gamma delta', '54579', "a 'quoted' word", '{1 2 3}', 'v {{}} w', '{{}}', 'a{{}}', 'x;y', '1.5e-3']))
 
 
 def classify_tables(tables):
